@@ -22,6 +22,9 @@ type seed struct {
 }
 
 var seeds = []seed{
+	{"ReadFrom forgets to forward the pre-read cookie", "U3", "roaring.go", "\tp, err = rb.highlowcontainer.readFrom(stream, cookieHeader...)\n", "\tp, err = rb.highlowcontainer.readFrom(stream)\n", "ReadFrom|param:cookieHeader"},
+	{"ParHeapOr worker returns its scratch slice to the pool before it is done with it", "PT2", "parallel.go", "\t\t\tfor _, next := range input.containers[2:] {\n\t\t\t\tc = c.lazyIOR(next)\n\t\t\t}\n", "\t\t\trest := input.containers[2:]\n\t\t\tpool.Put(input.containers[:0])\n\t\t\tfor _, next := range rest {\n\t\t\t\tc = c.lazyIOR(next)\n\t\t\t}\n", "ParHeapOr$2|Pool.Put"},
+	{"roaring64 FromUnsafeBytes appends to whatever the receiver held", "R1", "roaring64/roaring64.go", "\trb.highlowcontainer.resize(0)\n\tfor i := uint64(0); i < size; i++ {\n\t\tkeyBuf, err := stream.Next(4)", "\tfor i := uint64(0); i < size; i++ {\n\t\tkeyBuf, err := stream.Next(4)", "FromUnsafeBytes"},
 	{"repairAfterLazy re-types only containers with the lazy sentinel", "F2.repair", "parallel.go", "\t\t\tt.computeCardinality()\n\t\t}\n\n\t\tif t.getCardinality() <= arrayDefaultMaxSize {\n\t\t\treturn t.toArrayContainer()\n\t\t} else if c.(*bitmapContainer).isFull() {\n\t\t\treturn newRunContainer16Range(0, MaxUint16)\n\t\t}\n", "\t\t\tt.computeCardinality()\n\t\t\tif t.getCardinality() <= arrayDefaultMaxSize {\n\t\t\t\treturn t.toArrayContainer()\n\t\t\t} else if c.(*bitmapContainer).isFull() {\n\t\t\t\treturn newRunContainer16Range(0, MaxUint16)\n\t\t\t}\n\t\t}\n", "repairAfterLazy"},
 	{"AndAny hands its scratch union to iand without re-typing it", "F8.scratch", "fastaggregation.go", "\t\t\tif bc, ok := ored.(*bitmapContainer); ok {\n\t\t\t\tif bc.cardinality <= arrayDefaultMaxSize {\n\t\t\t\t\tored = bc.toArrayContainer()\n\t\t\t\t}\n\t\t\t}\n", "", "AndAny|scratch operand"},
 	{"roaring64 ReadFrom decodes through a package-level scratch buffer", "G1", "roaring64/roaring64.go", "func (rb *Bitmap) ReadFrom(stream io.Reader) (p int64, err error) {\n\tsizeBuf := make([]byte, 8)", "var headerScratch [8]byte\n\nfunc (rb *Bitmap) ReadFrom(stream io.Reader) (p int64, err error) {\n\tsizeBuf := headerScratch[:]", "ReadFrom|global headerScratch"},
